@@ -190,10 +190,9 @@ def drive(sc):
     if kind == "pair":
         ext = run(sc, True)
         inp = run(sc, False)
-        if inp["outcome"].startswith("exc:"):
-            raise RuntimeError(f"harness: the in-process reference run of {sc} raised {inp['outcome']}")
+        # (an in-process reference run that raises leaves nothing to compare with: the validator rejects such a pair)
         ids = {ext["sig"]: 1}
-        e = {"ev": "Pair", "inhang": bool(inp["hang"]), "sigExt": 1, "sigIn": ids.setdefault(inp["sig"], 2), "extoutcome": ext["outcome"], "inoutcome": inp["outcome"],
+        e = {"ev": "Pair", "inhang": bool(inp["hang"]), "inraised": bool(inp["outcome"].startswith("exc:") and not inp["hang"]), "sigExt": 1, "sigIn": ids.setdefault(inp["sig"], 2), "extoutcome": ext["outcome"], "inoutcome": inp["outcome"],
              "childalive": ext["childalive"], "hang": ext["hang"], "fault": "none", "outcome": ext["outcome"]}
         return [e], {"nontrivial": True, "key": str(sc), "kind": kind, "evals": ext["evals"]}
     env = {}
@@ -239,7 +238,9 @@ def extra_scenarios(tier, seed):
                  {"method": "slsqp", "maxfun": 4, "redir": True}]
         pairs += [{"method": "nelder-mead", "maxfun": 2, "padto": 65536 + k} for k in (3, 8)]
         pairs += [{"method": "slsqp", "maxfun": 4, "restart": True}, {"method": "slsqp", "maxfun": 6, "nanAt": 2, "restart": True},
-                  {"method": "slsqp", "maxfun": 3, "emptylin": True}]
+                  {"method": "slsqp", "maxfun": 3, "emptylin": True},
+                  # the back-end named with its plug-in: "external/scipy/slsqp" next to "scipy/slsqp"
+                  {"method": "scipy/slsqp", "maxfun": 4}, {"method": "SciPy/Nelder-Mead", "maxfun": 3}]
         kills = (-1, 1, 3, 4)
     else:
         kills, methods = (-1, 1, 2, 3, 4, 5, 6), ("slsqp", "cobyla", "differential_evolution")
@@ -257,7 +258,8 @@ def extra_scenarios(tier, seed):
         pairs += [{"method": "nelder-mead", "maxfun": 2, "padto": 65536 * m + k} for m in (1, 2) for k in range(0, 13)]
         pairs += [{"method": "slsqp", "maxfun": 4, "restart": True}, {"method": "slsqp", "maxfun": 6, "nanAt": 2, "restart": True},
                   {"method": "nelder-mead", "maxfun": 3, "restart": True}, {"method": "cobyla", "maxfun": 5, "con": True, "restart": True},
-                  {"method": "slsqp", "maxfun": 3, "emptylin": True}, {"method": "cobyla", "maxfun": 3, "emptylin": True}]
+                  {"method": "slsqp", "maxfun": 3, "emptylin": True}, {"method": "cobyla", "maxfun": 3, "emptylin": True},
+                  {"method": "scipy/slsqp", "maxfun": 4}, {"method": "SciPy/Nelder-Mead", "maxfun": 3}, {"method": "scipy/default", "maxfun": 4}]
     for m in methods:
         for k in kills:
             out.append({"kind": "fault", "fault": "kill", "after": k, "method": m, "maxfun": 12})
@@ -269,6 +271,10 @@ def extra_scenarios(tier, seed):
         out.append({"kind": "fault", "fault": "raise", "raiseAt": j, "method": "slsqp"})
     for k in (1, 2, 4):
         out.append({"kind": "fault", "fault": "kill", "killDuring": k, "after": k + 1, "method": "slsqp", "maxfun": 12})
+    # ... with the back-end's output redirected to a file (another code path around the run)
+    for k in (1, 3):
+        out.append({"kind": "fault", "fault": "kill", "killDuring": k, "after": k + 1, "method": "slsqp", "maxfun": 12, "redir": True})
+    out.append({"kind": "fault", "fault": "kill", "after": 3, "method": "slsqp", "maxfun": 12, "redir": True})
     out.append({"kind": "fault", "fault": "stop", "method": "slsqp", "maxfun": 2})
     out.append({"kind": "fault", "fault": "childerror", "after": 1, "method": "slsqp"})
     out.append({"kind": "fault", "fault": "childerror", "after": 2, "method": "slsqp", "empty": True})
